@@ -1,5 +1,6 @@
 """C09 — loser trees: replay / initial-tournament decision tables (engine A2),
-replay path by evaluation of the integer skeleton, slot-0 reporting, padding range, size switch.
+replay path by evaluation of the integer skeleton, slot-0 reporting, padding range, size switch; in the pointer trees the
+object behind every key pointer put into a node outlives the storing call (PADDING, lifetime: check_key_lifetime()).
 
 Verdict policy of this file: a violation is reported only on positive evidence (a concrete counterexample of an
 evaluation, a row of a decision table, a closed-world absence).  A shape that is not recognised is `Undecidable`.
@@ -216,6 +217,10 @@ def local_place(e, depth=0):
         return None
     if e["k"] == "DeclRefExpr" and e["ref"].get("kind") == "binding":
         return None                                   # a structured binding: the object it names is not known here
+    if e["k"] == "UnaryOperator" and e.get("op") == "&" and kids(e):
+        q = strip_casts(kids(e)[0])
+        if q is not None and q["k"] == "UnaryOperator" and q.get("op") == "*" and kids(q):
+            return local_place(kids(q)[0], depth + 1)     # &*p is p (builtin operators on a pointer)
     d = ref_of(e)
     if d is not None:
         if d in _REF_INITS and node_field(e) is None and node_index(e) is None:
@@ -2384,7 +2389,12 @@ def check_padding(ck, fn, guarded, pointer):
             if fld == "keyp":
                 if r is not None and (r["k"] in NULLS or const_int(r) == 0):
                     return "ok" if guarded else "bad"
-                v = sk.ev(rhs)
+                ao = match.call_named(r, ("addressof", "__addressof")) if r is not None else None
+                if ao is not None and ao["k"] == "CallExpr" and not ao.get("member_call") and len(kids(ao)) == 1 and kids(ao)[0] is not None:
+                    key = sk.lvalue(strip_casts(kids(ao)[0]))          # std::addressof(x) is &x
+                    v = ("ptr", key) if key is not None else None
+                else:
+                    v = sk.ev(rhs)
                 if isinstance(v, tuple) and len(v) == 2 and v[0] == "ptr":
                     return "bad" if guarded else ("ok" if v[1] == sentinel else "bad")
                 return None
@@ -2495,6 +2505,637 @@ def check_padding(ck, fn, guarded, pointer):
     ck.ok("PADDING", fn.full, "every padding leaf [k_+ik_, 2k_) initialised for (ik_, k_) in {(3,4), (5,8), (4,4), (1,1), (6,8)}: %s" % what)
 
 
+# ----------------------------------------------------------------------------
+# PADDING (lifetime): the object that a key pointer stored in a node designates outlives the call that stores it
+# ----------------------------------------------------------------------------
+# The pointer trees do not copy keys: a node holds the address of a key (the sentinel of the padding leaves, the key handed
+# to insert_start / delete_min_insert) and every later comparison reads through it.  The address of an object that dies
+# with the storing call - a parameter passed by value, a local, a temporary - must therefore never reach a pointer field
+# of a node.  Every store of a pointer into a pointer field of a Loser object is looked up (assignment to the field, swap
+# with the field, Loser{.., p}, the argument of a project function that keeps its parameter - the base-class constructor
+# call of a derived constructor among them) and the stored expression is resolved to the object it designates:
+#   null, a value read from a node, the value of a pointer parameter, the address of (a part of) the object behind a
+#   reference parameter, of *this, of a global                                   -> lives on (the caller's business)
+#   the address of (a part of) a by-value parameter, a local, a temporary        -> violation (positive: the store is there)
+#   anything else                                                                -> Undecidable
+# The analysis does not order statements: a pointer local with several possible values of which one is short-lived, and
+# a short-lived address in a Loser object that is not seen to reach the tree, are Undecidable, not violations.
+
+_REFCASTS = ("ImplicitCastExpr", "CStyleCastExpr", "CXXStaticCastExpr", "CXXReinterpretCastExpr", "CXXConstCastExpr", "ParenExpr")
+_TEMP_KINDS = ("CXXConstructExpr", "CXXTemporaryObjectExpr", "CXXFunctionalCastExpr", "ImplicitCastExpr", "InitListExpr", "CXXScalarValueInitExpr",
+               "IntegerLiteral", "FloatingLiteral", "CharacterLiteral", "CXXBoolLiteralExpr", "StringLiteral", "CStyleCastExpr", "CXXStaticCastExpr")
+
+
+def _is_ptr_type(t):
+    return _bare_type(t).endswith("*")
+
+
+def _strip_ptr(e):
+    """looks through casts from pointer to pointer"""
+    while e is not None and e["k"] in _REFCASTS + ("CXXFunctionalCastExpr",) and kids(e) and kids(e)[0] is not None and \
+            _is_ptr_type(e.get("ty")) and (_is_ptr_type(kids(e)[0].get("ty")) or _bare_type(kids(e)[0].get("ty")).endswith("]")):
+        e = kids(e)[0]
+    return e
+
+
+def _strip_lv(e):
+    """looks through casts that name the same object (an lvalue of an lvalue)"""
+    while e is not None and e["k"] in _REFCASTS and kids(e) and kids(e)[0] is not None and e.get("lv") and kids(e)[0].get("lv"):
+        e = kids(e)[0]
+    return e
+
+
+def _may_write(root, d):
+    """the code under root may change the variable d: it assigns to it, steps it, takes its address, or hands it to a call"""
+    for y in ir.walk(root):
+        if y["k"] in ("BinaryOperator", "CompoundAssignOperator", "CXXOperatorCallExpr"):
+            b = match.binop(y)
+            if b and b[0].endswith("=") and b[0] not in ("==", "!=", "<=", ">=") and ref_of(b[1]) == d:
+                return True
+        if y["k"] == "UnaryOperator" and y.get("op") in ("++", "--", "&") and kids(y) and ref_of(kids(y)[0]) == d:
+            return True
+        if y["k"] == "LambdaExpr" and any(c.get("id") == d for c in y.get("captures") or ()):
+            return True
+        if "callee" in y and not match.index_parts(y) and y["callee"]["name"] not in ("unused",) and \
+                any(a is not None and ref_of(a) == d for a in kids(y)):
+            return True
+    return False
+
+
+class _LifeFn:
+    """one function: where pointers are stored into pointer fields of Loser objects and what they designate"""
+
+    def __init__(self, life, fn):
+        self.life, self.fn = life, fn
+        self.decl = {x["did"]: x for x in fn.nodes() if x["k"] == "VarDecl" and x.get("did") is not None}
+        self.param = {p["did"]: (i, p) for i, p in enumerate(fn.params)}
+        self.assigned, self.swapped, self.escaped = {}, {}, {}
+        self.order = {}
+        for i, x in enumerate(fn.nodes()):
+            self.order.setdefault(id(x), i)
+        self.sites = {}          # variable -> [(position in the text, node, value written there)]: initialiser, assignments, swaps
+        self.at = None           # position of the store whose value is being resolved
+        self.jumps = any(x["k"] in ("GotoStmt", "LabelStmt", "IndirectGotoStmt") for x in fn.nodes())
+        for x in fn.nodes():
+            if x["k"] == "VarDecl" and x.get("did") is not None and kids(x) and kids(x)[0] is not None and not x.get("isref"):
+                self.sites.setdefault(x["did"], []).append((self.order[id(x)], x, kids(x)[0]))
+            if x["k"] == "LambdaExpr":
+                lf = fn.tu.by_did.get(x.get("fn")) if fn.tu is not None else None
+                for c in x.get("captures") or ():
+                    if c.get("byref") and c.get("id") is not None and (lf is None or lf.body is None or _may_write(lf.body, c["id"])):
+                        self.escaped.setdefault(c["id"], x)       # the lambda's body may write it
+            if x["k"] in ("BinaryOperator", "CXXOperatorCallExpr"):
+                b = match.binop(x, ("=",))
+                d = self.variable(b[1]) if b else None
+                if d is not None:
+                    self.assigned.setdefault(d, []).append(b[2])
+                    self.sites.setdefault(d, []).append((self.order[id(x)], x, b[2]))
+            if x["k"] == "UnaryOperator" and x.get("op") == "&" and kids(x):
+                d = self.variable(kids(x)[0])
+                if d is not None and self.is_pointer_variable(d):
+                    self.escaped.setdefault(d, x)
+            if "callee" not in x or x["k"] in ("CXXConstructExpr", "CXXTemporaryObjectExpr") or match.index_parts(x):
+                continue
+            if self.swap_call(x):
+                a, b_ = kids(x)
+                for s, o in ((a, b_), (b_, a)):
+                    d = self.variable(s)
+                    if d is not None:
+                        self.swapped.setdefault(d, []).append(o)
+                        self.sites.setdefault(d, []).append((self.order[id(x)], x, o))
+                continue
+            if x["callee"]["name"] in ("move", "forward", "unused", "addressof", "min", "max") or x["k"] == "CXXOperatorCallExpr" and x.get("op") != "()":
+                continue
+            callee = self.life.callee(x)
+            for i, a in self.life.arguments(x, callee):
+                d = self.variable(a) if a is not None else None
+                if d is None or not self.is_pointer_variable(d):
+                    continue
+                ty = (callee.params[i].get("ty") or "").rstrip() if callee is not None and i is not None and i < len(callee.params) else None
+                inner = ty.rstrip("&").rstrip() if ty is not None and ty.endswith("&") else None
+                if ty is None or (inner is not None and not inner.endswith("const") and (inner.endswith("*") or not inner.startswith("const "))):
+                    self.escaped.setdefault(d, x)       # the callee may change the pointer (it binds it to a reference that is not const)
+
+    # -- variables ---------------------------------------------------------
+    def swap_call(self, x):
+        return "callee" in x and x["callee"]["name"] == "swap" and not x.get("member_call") and x["k"] == "CallExpr" and \
+            len(kids(x)) == 2 and all(a is not None for a in kids(x))
+
+    def variable(self, e, depth=0):
+        """declaration id of the local / parameter that the lvalue e names (through reference locals bound to one)"""
+        e = _strip_lv(e)
+        if e is None or e["k"] != "DeclRefExpr" or depth > 6 or e["ref"].get("kind") not in ("local", "param", "staticlocal"):
+            return None
+        d = e["ref"]["id"]
+        v = self.decl.get(d)
+        if v is not None and v.get("isref"):
+            return self.variable(kids(v)[0], depth + 1) if kids(v) and kids(v)[0] is not None else None
+        return d
+
+    def is_pointer_variable(self, d):
+        v = self.decl.get(d) or (self.param.get(d) or (None, None))[1]
+        return v is not None and _is_ptr_type(v.get("ty"))
+
+    def pointer_field(self, e, depth=0):
+        """the Loser object whose pointer field the lvalue e names, as (object expression, arrow); None if e is something else"""
+        e = _strip_lv(e)
+        if e is None or depth > 6:
+            return None
+        if e["k"] == "MemberExpr" and (e.get("owner") or "").endswith("::Loser") and kids(e) and _is_ptr_type(e.get("ty")):
+            return kids(e)[0], bool(e.get("arrow"))
+        if e["k"] == "DeclRefExpr":
+            v = self.decl.get(e["ref"]["id"])
+            if v is not None and v.get("isref") and kids(v) and kids(v)[0] is not None:
+                return self.pointer_field(kids(v)[0], depth + 1)
+        return None
+
+    def undecided(self, e, what):
+        return dtable.Undecidable("%s: %s: %s" % (self.fn.nloc(e), what, dtable.describe(e)[:80]))
+
+    # -- what a pointer value / an lvalue designates -------------------------
+    def pointer_roots(self, e, seen=()):
+        """the objects that the pointer value e may designate: a list of (kind, detail, node), kind 'ok' | 'caller' | 'bad' | 'bad?'"""
+        e = _strip_ptr(e)
+        if e is None or len(seen) > 12:
+            raise dtable.Undecidable("%s: a stored key pointer is not resolved" % self.fn.loc)
+        k = e["k"]
+        if k in NULLS or const_int(e) == 0:
+            return [("ok", "null", e)]
+        if k == "This":
+            return [("ok", "this", e)]
+        if k == "UnaryOperator" and e.get("op") == "&" and kids(e):
+            return self.object_roots(kids(e)[0], seen)
+        if k == "UnaryOperator" and e.get("op") in ("++", "--") and kids(e):
+            return self.pointer_roots(kids(e)[0], seen)
+        if self.pointer_field(e) is not None:
+            return [("ok", "node", e)]                       # read from a Loser object: what was stored there was judged at its store
+        if k == "DeclRefExpr":
+            if _bare_type(e.get("ty")).endswith("]"):
+                return self.object_roots(e, seen)             # an array decays to the address of its first element
+            d = self.variable(e)
+            if d is None or not self.is_pointer_variable(d):
+                raise self.undecided(e, "pointer stored as a key pointer is not resolved to the object it designates")
+            return self.variable_roots(d, e, seen)
+        if k in ("BinaryOperator", "CompoundAssignOperator") and len(kids(e)) == 2:
+            a, b = kids(e)
+            if e.get("op") == ",":
+                return self.pointer_roots(b, seen)
+            if e.get("op") in ("+", "-", "+=", "-="):
+                ptrs = [x for x in (a, b) if x is not None and (_is_ptr_type(x.get("ty")) or _bare_type(x.get("ty")).endswith("]"))]
+                if len(ptrs) == 1:
+                    return self.pointer_roots(ptrs[0], seen)
+        if k == "ConditionalOperator" and len(kids(e)) == 3:
+            return self.pointer_roots(kids(e)[1], seen) + self.pointer_roots(kids(e)[2], seen)
+        if "callee" in e and k == "CallExpr":
+            name = e["callee"]["name"]
+            args = [a for a in kids(e) if a is not None]
+            if not e.get("member_call"):
+                if name in ("addressof", "__addressof") and len(args) == 1:
+                    return self.object_roots(args[0], seen)
+                if name in ("move", "forward", "launder") and len(args) == 1:
+                    return self.pointer_roots(args[0], seen)
+            r = self.returned(e, seen)
+            if r is not None:
+                return r
+        raise self.undecided(e, "pointer stored as a key pointer is not resolved to the object it designates")
+
+    def variable_roots(self, d, e, seen):
+        if d in seen:
+            return []
+        if d in self.escaped:
+            raise self.undecided(self.escaped[d], "a pointer that is stored as a key pointer can be changed through this")
+        sources = []
+        if d in self.param:
+            sources.append(None)
+        else:
+            v = self.decl.get(d)
+            if v is None:
+                raise self.undecided(e, "pointer stored as a key pointer is not a local of this function")
+            if kids(v) and kids(v)[0] is not None:
+                sources.append(kids(v)[0])
+        sources += self.assigned.get(d, []) + self.swapped.get(d, [])
+        out = []
+        for s in sources:
+            out += [("caller", (self.param[d][0], "value"), e)] if s is None else self.pointer_roots(s, seen + (d,))
+        if len(sources) > 1:
+            out = [(("bad?" if r[0] == "bad" else r[0]),) + r[1:] for r in out]      # which value it holds at the store is not followed ...
+            first = self.value_on_first_arrival(d)
+            if first is not None:                            # ... except the one it holds when the store is reached for the first time
+                at, self.at = self.at, first[0]
+                try:
+                    sure = [("caller", (self.param[d][0], "value"), e)] if first[1] is None else self.pointer_roots(first[1], seen + (d,))
+                finally:
+                    self.at = at
+                out += [r for r in sure if r[0] == "bad"]
+        return out
+
+    def value_on_first_arrival(self, d):
+        """(position, expression) of the write that gives the variable d the value it holds when the store under examination
+        (self.at) is reached for the first time: the last write before it in the text, provided that write is a statement of
+        the function's outermost block (it is executed once, and what lies before it in the text cannot run after it; what
+        lies between it and the store does not write d).  (-1, None): the value the parameter has on entry.  None: not known."""
+        if self.at is None or self.jumps:
+            return None
+        before = [w for w in self.sites.get(d, []) if w[0] < self.at]
+        if not before:
+            return (-1, None) if d in self.param else None
+        pos, node, value = max(before, key=lambda w: w[0])
+        fn = self.fn
+        p = fn.parent(node)
+        while p is not None and p is not fn.body and (p["k"] in _CASTS or p["k"] == "DeclStmt"):
+            p = fn.parent(p)
+        if p is None or p is not fn.body or fn.body is None or fn.body["k"] != "CompoundStmt":
+            return None
+        return pos, value
+
+    def object_roots(self, lv, seen=()):
+        """the objects that the lvalue lv (the operand of &, the argument bound to a reference whose address is kept) may be (part of)"""
+        e = _strip_lv(lv)
+        if e is None or len(seen) > 12:
+            raise dtable.Undecidable("%s: a stored key pointer is not resolved" % self.fn.loc)
+        k = e["k"]
+        if k == "DeclRefExpr":
+            kind, d, name = e["ref"].get("kind"), e["ref"]["id"], e["ref"].get("name")
+            if kind in ("global", "staticlocal"):
+                return [("ok", "static", e)]
+            if kind == "param" and d in self.param:
+                i, p = self.param[d]
+                if (p.get("ty") or "").rstrip().endswith("&"):
+                    return [("caller", (i, "address"), e)]
+                return [("bad", ("parameter", name, "passed by value (%s)" % p.get("ty")), e)]
+            v = self.decl.get(d) if kind == "local" else None
+            if v is None:
+                raise self.undecided(e, "object whose address is stored as a key pointer is not known")
+            if v.get("static"):
+                return [("ok", "static", e)]
+            if v.get("isref"):
+                if not kids(v) or kids(v)[0] is None or d in seen:
+                    raise self.undecided(e, "reference whose referent's address is stored as a key pointer is not resolved")
+                return self.object_roots(kids(v)[0], seen + (d,))
+            return [("bad", ("local", name, "of type %s" % v.get("ty")), e)]
+        if k == "MemberExpr" and kids(e):
+            if e.get("arrow"):
+                return self.pointer_roots(kids(e)[0], seen)
+            return self.object_roots(kids(e)[0], seen)
+        ip = match.index_parts(e)
+        if ip:
+            base = _strip_lv(ip[0])
+            if _is_ptr_type(base.get("ty")):
+                return self.pointer_roots(base, seen)
+            if match.this_field(base):
+                return [("ok", "this", e)]
+            r = self.object_roots(base, seen)
+            if e["k"] != "ArraySubscriptExpr" and any(x[0] in ("bad", "bad?") for x in r):
+                raise self.undecided(e, "element of a local container: whether it dies with the container is not known")
+            return r
+        q = match.deref_of(e)
+        if q is not None:
+            if _is_ptr_type(_strip_ptr(q).get("ty")):
+                return self.pointer_roots(q, seen)
+            raise self.undecided(e, "object whose address is stored as a key pointer is reached through an iterator")
+        if k == "ConditionalOperator" and len(kids(e)) == 3 and e.get("lv"):
+            return self.object_roots(kids(e)[1], seen) + self.object_roots(kids(e)[2], seen)
+        if "callee" in e and k == "CallExpr":
+            name = e["callee"]["name"]
+            args = [a for a in kids(e) if a is not None]
+            if not e.get("member_call") and name in ("as_const", "move", "forward") and len(args) == 1:
+                return self.object_roots(args[0], seen)
+            if not e.get("member_call") and name in ("min", "max") and len(args) == 2 and e["callee"].get("qname", "").startswith("std::"):
+                return self.object_roots(args[0], seen) + self.object_roots(args[1], seen)
+            if e.get("lv"):
+                r = self.returned(e, seen)
+                if r is not None:
+                    return r
+                raise self.undecided(e, "object whose address is stored as a key pointer is the result of a call that is not known")
+        if not e.get("lv") and (k in _TEMP_KINDS or ("callee" in e and k == "CallExpr")):
+            return [("bad", ("temporary", dtable.describe(e)[:60], "(a value of type %s made here, which lives until the end of the full expression)" % e.get("ty")), e)]
+        raise self.undecided(e, "object whose address is stored as a key pointer is not resolved")
+
+    def returned(self, call, seen):
+        """roots of the pointer / reference that a project function returns, its parameters replaced by the arguments of the call"""
+        callee = self.life.callee(call)
+        if callee is None or callee.body is None or callee.did == self.fn.did:
+            return None
+        rets = self.life.returns(callee, call["callee"].get("ret") or "")
+        if rets is None:
+            return None
+        out = []
+        args = dict(self.life.arguments(call, callee))
+        for r in rets:
+            if r[0] != "caller":
+                out.append((r[0], r[1], call))
+                continue
+            i, mode = r[1]
+            a = args.get(i)
+            if a is None or a["k"] == "DefaultArg":
+                raise self.undecided(call, "argument of this call not found")
+            out += self.pointer_roots(a, seen) if mode == "value" else self.object_roots(a, seen)
+        return out
+
+    # -- where a store goes ------------------------------------------------------
+    def object_kind(self, o, arrow=False, depth=0):
+        """'tree' if the Loser object o is a node of the tree, ('local', id) for a local object of the function, 'unknown' otherwise"""
+        if o is None or depth > 8:
+            return "unknown"
+        if arrow:
+            return self.pointee_kind(o, depth + 1)
+        o = _strip_lv(o)
+        ip = match.index_parts(o)
+        if ip:
+            if match.this_field(ip[0]) == TREE:
+                return "tree"
+            return self.pointee_kind(ip[0], depth + 1) if _is_ptr_type(_strip_ptr(ip[0]).get("ty")) else "unknown"
+        q = match.deref_of(o)
+        if q is not None:
+            return self.pointee_kind(q, depth + 1)
+        if o["k"] == "DeclRefExpr" and o["ref"].get("kind") == "local":
+            v = self.decl.get(o["ref"]["id"])
+            if v is None:
+                return "unknown"
+            if v.get("isref"):
+                return self.object_kind(kids(v)[0], False, depth + 1) if kids(v) else "unknown"
+            return ("local", o["ref"]["id"])
+        return "unknown"
+
+    def pointee_kind(self, p, depth=0, seen=()):
+        p = _strip_ptr(p)
+        if p is None or depth > 8:
+            return "unknown"
+        if "callee" in p and tree_accessor(p, 1) is not None and p["callee"]["name"] != "size":
+            return "tree"
+        if p["k"] == "UnaryOperator" and p.get("op") == "&" and kids(p):
+            return self.object_kind(kids(p)[0], False, depth + 1)
+        if p["k"] in ("BinaryOperator",) and p.get("op") in ("+", "-") and len(kids(p)) == 2:
+            ptrs = [x for x in kids(p) if x is not None and _is_ptr_type(x.get("ty"))]
+            return self.pointee_kind(ptrs[0], depth + 1, seen) if len(ptrs) == 1 else "unknown"
+        if p["k"] == "DeclRefExpr":
+            d = self.variable(p)
+            if d is None or d in self.param or d in self.escaped or d not in self.decl:
+                return "unknown"
+            v = self.decl[d]
+            srcs = ([kids(v)[0]] if kids(v) and kids(v)[0] is not None else []) + self.assigned.get(d, [])
+            kinds = set()
+            for s in srcs:
+                if any(y["k"] == "DeclRefExpr" and y["ref"]["id"] == d for y in ir.walk(s)):
+                    continue                                  # game = base + (game - base) / 2: stays where it is
+                kinds.add(self.pointee_kind(s, depth + 1, seen + (d,)))
+            return kinds.pop() if len(kinds) == 1 and d not in self.swapped else "unknown"
+        return "unknown"
+
+    def reaches_tree(self, d):
+        """the local Loser object d is copied / swapped as a whole into a node of the tree somewhere in the function"""
+        def is_d(e):
+            e = _strip_lv(match.strip_conv(strip_move(e)))
+            return e is not None and self.object_kind(e) == ("local", d)
+        for x in self.fn.nodes():
+            if x["k"] in ("BinaryOperator", "CXXOperatorCallExpr"):
+                b = match.binop(x, ("=",))
+                if b and is_d(b[2]) and self.object_kind(b[1]) == "tree":
+                    return True
+            if self.swap_call(x):
+                a, b_ = kids(x)
+                if (is_d(a) and self.object_kind(b_) == "tree") or (is_d(b_) and self.object_kind(a) == "tree"):
+                    return True
+            if "callee" in x and x["callee"]["name"] in ("fill", "fill_n") and not x.get("member_call") and len(kids(x)) == 3 and \
+                    is_d(kids(x)[2]) and self.pointee_kind(kids(x)[0]) == "tree":
+                return True
+        return False
+
+    # -- the stores -----------------------------------------------------------------
+    def stores(self):
+        """(value roots, target kind, node, text) for every pointer that the function puts into a pointer field of a Loser object
+        or hands to a function that does"""
+        fn = self.fn
+        out = []
+        fields = None
+        for x in fn.nodes():
+            if x["k"] in ("BinaryOperator", "CXXOperatorCallExpr"):
+                b = match.binop(x, ("=",))
+                pf = self.pointer_field(b[1]) if b else None
+                if pf:
+                    self.at = self.order.get(id(x))
+                    out.append((self.pointer_roots(b[2]), self.object_kind(*pf), x, "%s = %s" % (dtable.describe(b[1]), dtable.describe(b[2]))))
+            if self.swap_call(x):
+                a, b_ = kids(x)
+                for s, o in ((a, b_), (b_, a)):
+                    pf = self.pointer_field(s)
+                    if pf and self.pointer_field(o) is None and _is_ptr_type(_strip_lv(o).get("ty")):
+                        self.at = self.order.get(id(x))
+                        out.append((self.pointer_roots(o), self.object_kind(*pf), x, "swap(%s, %s)" % (dtable.describe(s), dtable.describe(o))))
+            if x["k"] == "InitListExpr" and _bare_type(x.get("ty")).endswith("::Loser"):
+                if fields is None:
+                    recs = [r for r in fn.tu.records if r["qname"].endswith("::Loser") and (r.get("full") or r["qname"]) == _bare_type(x.get("ty"))]
+                    recs = recs or [r for r in fn.tu.records if r["qname"] == (CLASSES_BASE(fn) or "") + "::Loser"]
+                    fields = recs[0]["fields"] if recs else []
+                if len(fields) == len(kids(x)):
+                    for f, v in zip(fields, kids(x)):
+                        if _is_ptr_type(f.get("ty")) and v is not None:
+                            self.at = self.order.get(id(x))
+                            out.append((self.pointer_roots(v), self.init_list_target(x), x, "Loser{.. %s ..}" % dtable.describe(v)))
+                elif any(_is_ptr_type(v.get("ty")) for v in kids(x) if v is not None):
+                    raise self.undecided(x, "fields of this player value not understood")
+        for c in fn.nodes():             # the initialisers of a constructor (the call of the base-class constructor) are among them
+            if "callee" not in c or match.index_parts(c) or self.swap_call(c):
+                continue
+            callee = self.life.callee(c)
+            if callee is None or callee.body is None:
+                continue
+            kept = self.life.kept(callee)
+            if not kept:
+                continue
+            args = dict(self.life.arguments(c, callee))
+            for (i, mode), sure in sorted(kept.items()):
+                a = args.get(i)
+                if a is None or a["k"] == "DefaultArg":
+                    continue
+                self.at = self.order.get(id(c))
+                roots = self.pointer_roots(a) if mode == "value" else self.object_roots(a)
+                out.append((roots, "tree" if sure else "unknown", c, "%s(.. %s ..), which keeps %s parameter %s in a node" % (
+                    callee.name, dtable.describe(a), "its pointer" if mode == "value" else "the address of its reference",
+                    callee.params[i].get("name"))))
+        return out
+
+    def init_list_target(self, x):
+        """where a Loser{...} value goes"""
+        fn = self.fn
+        p, c = fn.parent(x), x
+        while p is not None and (p["k"] in _CASTS or p["k"] in ("CXXConstructExpr", "CXXTemporaryObjectExpr", "CXXFunctionalCastExpr")) and len(kids(p)) == 1:
+            p, c = fn.parent(p), p
+        if p is None:
+            return "unknown"
+        if p["k"] == "VarDecl" and not p.get("isref") and p.get("did") is not None:
+            return ("local", p["did"])
+        b = match.binop(p, ("=",)) if p["k"] in ("BinaryOperator", "CXXOperatorCallExpr") else None
+        if b and b[2] is c:
+            return self.object_kind(b[1])
+        if "callee" in p and p["callee"]["name"] in ("fill", "fill_n") and not p.get("member_call") and len(kids(p)) == 3 and kids(p)[2] is c:
+            return self.pointee_kind(kids(p)[0])
+        return "unknown"
+
+
+class _Life:
+    """one translation unit: summaries of the project functions (which parameters end up in a node, what is returned)"""
+
+    def __init__(self, tu):
+        self.tu = tu
+        self.ctx = {}
+        self.keeps = {}         # function id -> {(parameter index, 'value' | 'address'): True if it surely reaches the tree}
+        self.rets = {}
+        self.active = set()
+        self.done = {}
+
+    def context(self, fn):
+        c = self.ctx.get(fn.did)
+        if c is None:
+            if fn.record in CLASSES or any(fn.record == i["base"] for i in CLASSES.values()):
+                lower_novel_forms(fn)
+            c = self.ctx[fn.did] = _LifeFn(self, fn)
+        return c
+
+    def callee(self, call):
+        f = self.tu.by_did.get(call["callee"].get("did")) if "callee" in call else None
+        return f if f is not None and f.kind != "lambda" else None
+
+    def arguments(self, call, callee):
+        """(parameter index, argument) pairs of a call; index None if the callee's parameters are not known"""
+        args = list(kids(call))
+        if call.get("member_call") or (call["k"] == "CXXOperatorCallExpr" and callee is not None and callee.record and len(args) == len(callee.params) + 1) \
+                or (callee is None and call["k"] == "CXXOperatorCallExpr"):
+            args = args[1:]
+        return [((i if callee is not None else None), a) for i, a in enumerate(args)]
+
+    def analyse(self, fn):
+        """(stores, problems) of fn; its summary goes to self.keeps"""
+        if fn.did in self.done:
+            return self.done[fn.did]
+        if fn.did in self.active or len(self.active) > 8:
+            return None
+        self.active.add(fn.did)
+        try:
+            cx = self.context(fn)
+            stores = cx.stores()
+            keep = dict(self.keeps.get(fn.did, {}))
+            for roots, target, node, text in stores:
+                if isinstance(target, tuple):
+                    target = "tree" if cx.reaches_tree(target[1]) else "unknown"
+                for r in roots:
+                    if r[0] == "caller":
+                        keep[r[1]] = keep.get(r[1], False) or target == "tree"
+            self.keeps[fn.did] = keep
+            self.done[fn.did] = stores
+            return stores
+        finally:
+            self.active.discard(fn.did)
+
+    def kept(self, callee):
+        if callee.did not in self.done and callee.did not in self.active:
+            if not any(x["k"] == "MemberExpr" and (x.get("owner") or "").endswith("::Loser") or
+                       x["k"] == "InitListExpr" and _bare_type(x.get("ty")).endswith("::Loser") or
+                       ("callee" in x and x["callee"].get("did") in self.tu.by_did and not match.index_parts(x)) for x in callee.nodes()):
+                self.done[callee.did] = []                  # touches no player and calls nothing that could
+                self.keeps[callee.did] = {}
+            else:
+                self.analyse(callee)
+        return self.keeps.get(callee.did, {})
+
+    def returns(self, callee, ret):
+        """roots of what the project function returns (a pointer, or the object behind a returned reference); None if it returns neither"""
+        ret = ret.rstrip()
+        byref = ret.endswith("&")
+        if not byref and not _is_ptr_type(ret):
+            return None
+        key = (callee.did, byref)
+        if key in self.rets:
+            return self.rets[key]
+        if key in self.active:
+            return []
+        self.active.add(key)
+        try:
+            cx = self.context(callee)
+            out = []
+            for x in callee.nodes():
+                if x["k"] == "ReturnStmt" and kids(x) and kids(x)[0] is not None:
+                    cx.at = cx.order.get(id(x))
+                    out += cx.object_roots(kids(x)[0]) if byref else cx.pointer_roots(kids(x)[0])
+            self.rets[key] = out
+            return out
+        finally:
+            self.active.discard(key)
+
+
+def key_lifetime_functions(tu):
+    """the member functions of the trees whose nodes hold pointers"""
+    out = []
+    for rec, info in CLASSES.items():
+        if not info["pointer"]:
+            continue
+        for f in tu.find(record=rec):
+            if f.body is not None and f.rtargs[1:2] not in (["S16"], ["S24"]):
+                out.append(f)
+        for f in tu.find(record=info["base"]):
+            if f.body is not None and f.rtargs[:1] not in (["S16"], ["S24"]):
+                out.append(f)
+    return out
+
+
+def check_key_lifetime(ck, tu):
+    """PADDING (lifetime): no node of a pointer tree is given the address of an object that dies with the storing call"""
+    fns = key_lifetime_functions(tu)
+    life = _Life(tu)
+    for _round in range(6):             # summaries of functions that call each other: until nothing changes
+        before = {d: dict(k) for d, k in life.keeps.items()}
+        life.done.clear()
+        for fn in fns:
+            try:
+                life.analyse(fn)
+            except ir.AnalysisBroken:
+                pass                    # said again below, where it is recorded
+        if before == life.keeps:
+            break
+
+    def report(fn):
+        stores = life.analyse(fn)
+        cx = life.context(fn)
+        undecided = None
+        reported = set()
+        for roots, target, node, text in stores or ():
+            if isinstance(target, tuple):
+                target = "tree" if cx.reaches_tree(target[1]) else "unknown"
+            for kind, detail, at in roots:
+                if kind not in ("bad", "bad?"):
+                    continue
+                what, name, more = detail
+                if kind == "bad?" or target != "tree":
+                    undecided = undecided or "%s: the address of %s %s may be stored in a node (%s): %s" % (
+                        fn.nloc(node), what, name, "the pointer has several values in this function" if kind == "bad?" else
+                        "the player object written here is not seen to be a node", text)
+                    continue
+                if (what, name) in reported:
+                    continue
+                reported.add((what, name))
+                ck.violation("PADDING", fn.qname, "lifetime:%s" % name,
+                             "a node keeps the address of %s %s %s, which is gone when %s returns: %s (line %s); every later comparison "
+                             "against that node reads a dead object"
+                             % (what, name, more, fn.name, text, node.get("l", "?")), fn.nloc(node))
+        if reported:
+            return
+        if undecided:
+            raise dtable.Undecidable(undecided)
+        if stores:
+            ck.ok("PADDING", fn.full, "%d key pointer(s) put into nodes: each is null, read from a node, a pointer of the caller or the address of "
+                  "an object of the caller (reference parameter)" % len(stores))
+    found = [0]
+
+    def counted(fn):
+        found[0] += len(life.analyse(fn) or ())
+        report(fn)
+    for fn in fns:
+        ck.guarded(lambda fn=fn: counted(fn))
+    if not ck.deferred:
+        # insert_start and delete_min_insert hand a key pointer to a node, however they are written
+        ck.require(found[0] > 0, "no store of a key pointer into a node found in the pointer trees (anchor vanished)")
+
+
 def check_switch(ck, tu):
     fn = tu.one(qname="witness_c09_switch") if tu.find(qname="witness_c09_switch") else None
     ck.require(fn is not None, "switch witness missing")
@@ -2558,6 +3199,22 @@ def run(ck):
                     ck.guarded(lambda fn=fn, info=info: check_min_source(ck, fn, info["guarded"] and info["pointer"]))
                 elif fn.kind == "ctor":
                     ck.guarded(lambda fn=fn, info=info: check_padding(ck, fn, info["guarded"], info["pointer"]))
+        # which object an address designates is not preserved by the normaliser of engine/normalize.py (a const copy of a value
+        # is replaced by what it was copied from; a helper's value parameter by the argument): this rule reads the tree as written
+        raw = tu
+        if getattr(tu, "normalized", 0):
+            import os
+            had = os.environ.get("VERIF_NO_NORMALIZE")
+            os.environ["VERIF_NO_NORMALIZE"] = "1"
+            try:
+                raw = ir.extract("witness/C09_loser_tree.cpp", defines=["WITNESS_T=" + t], extra_flags=["-include", "string"],
+                                 roots=[ir.REPO + "/tlx/", ir.VERIF + "/witness/"])
+            finally:
+                if had is None:
+                    del os.environ["VERIF_NO_NORMALIZE"]
+                else:
+                    os.environ["VERIF_NO_NORMALIZE"] = had
+        check_key_lifetime(ck, raw)
         check_switch(ck, tu)
     m = len(types)
     ck.floor("REPLAY-TABLE", 8 * m)
